@@ -614,6 +614,31 @@ fn shape_cases(tier: Tier) -> Vec<Case> {
             }
         }
     }
+    // multipatches whose outer rings repeat an outline (the floor under a roof, storeys), forwards or backwards,
+    // with and without holes in between
+    {
+        let sq = square(true, 0.0);
+        let mut rev = sq.clone();
+        rev.reverse();
+        let hole = |k: usize| -> Vec<(f64, f64)> { let o = 0.2 + 0.2 * k as f64; vec![(o, o), (o + 0.1, o), (o, o + 0.1), (o, o)] };
+        for (outer, inner) in [(2u8, 3u8), (4, 5)] {
+            for second in [&sq, &rev] {
+                for holes in 0..3usize {
+                    let mut parts = vec![MPart { kind: outer, pts: to_p4(&sq, 0) }];
+                    if holes >= 1 {
+                        parts.push(MPart { kind: inner, pts: to_p4(&hole(0), 1) });
+                    }
+                    parts.push(MPart { kind: outer, pts: to_p4(second, 2) });
+                    if holes >= 2 {
+                        parts.push(MPart { kind: inner, pts: to_p4(&hole(1), 3) });
+                    }
+                    v.push(Case::Shape(MShape { ty: Ty::Multipatch, parts: parts.clone() }));
+                    parts.push(MPart { kind: outer, pts: to_p4(&sq, 4) });
+                    v.push(Case::Shape(MShape { ty: Ty::Multipatch, parts }));
+                }
+            }
+        }
+    }
     v.push(Case::Shape(MShape::null()));
     v
 }
@@ -929,7 +954,7 @@ pub fn check(tier: Tier) -> i32 {
             tier,
             level: "model_checking",
             engine: "E2 enumerator on the real From/TryFrom impls between shapefile and geo-types values and the geo-traits accessors (library built with features geo-types + geo-traits)",
-            rule: "shapes: Point/PointM/PointZ with <= 2 special values from the per-dimension alphabets; Multipoint* of 1-3 points and Polyline* structures with one X/Y slot replaced by every value of F_xy; Polygon*: every role word of the outer-first language O I{0..2} (O I{0..2}){0..2} x ring templates {triangle cw/ccw, square cw/ccw, zero-area, open triangle} (all combinations up to 3 rings, a rotating choice above), and k outer rings with 0-2 holes each for every k up to 48; multipatches: every kind vector of length 1-3 over the 6 kinds (ring-only ones convert, any strip / fan is refused); NullShape; geo-types: Point, Line, LineString, MultiLineString (1-3), MultiPoint (1-3), Polygon with 0-2 holes x templates, MultiPolygon of 1-3 polygons, Rect, Triangle, GeometryCollection; geo-traits: every Point/PointM/PointZ with <= 2 special values from the full alphabet (no-data, below-threshold, NaN measures included), and every point of Multipoint*/Polyline* structures reached through the MultiPointTrait / MultiLineStringTrait views with one slot replaced by every value of its alphabet; plus polygons whose hole lies inside an earlier outer ring than the one it is listed under (every arrangement of a big island, a far islet, an islet next to it and three hole positions), polylines whose consecutive parts share end points or coincide (all pairs and triples over 6 segments), rings that come back to a vertex already visited (two lobes through the start vertex, spikes, a repeated inner vertex), as shapes and as geo-types polygons; plus shapes READ from records encoded as given: polylines with parts of 1-3 vertices in every arrangement of up to 3 parts, polygons (with and without a hole) whose rings are closed in X / Y while the last vertex differs from the first in Z, M, both or neither; every case is non-trivial",
+            rule: "shapes: Point/PointM/PointZ with <= 2 special values from the per-dimension alphabets; Multipoint* of 1-3 points and Polyline* structures with one X/Y slot replaced by every value of F_xy; Polygon*: every role word of the outer-first language O I{0..2} (O I{0..2}){0..2} x ring templates {triangle cw/ccw, square cw/ccw, zero-area, open triangle} (all combinations up to 3 rings, a rotating choice above), and k outer rings with 0-2 holes each for every k up to 48; multipatches: every kind vector of length 1-3 over the 6 kinds (ring-only ones convert, any strip / fan is refused); NullShape; geo-types: Point, Line, LineString, MultiLineString (1-3), MultiPoint (1-3), Polygon with 0-2 holes x templates, MultiPolygon of 1-3 polygons, Rect, Triangle, GeometryCollection; geo-traits: every Point/PointM/PointZ with <= 2 special values from the full alphabet (no-data, below-threshold, NaN measures included), and every point of Multipoint*/Polyline* structures reached through the MultiPointTrait / MultiLineStringTrait views with one slot replaced by every value of its alphabet; plus polygons whose hole lies inside an earlier outer ring than the one it is listed under (every arrangement of a big island, a far islet, an islet next to it and three hole positions), polylines whose consecutive parts share end points or coincide (all pairs and triples over 6 segments), multipatches whose outer rings repeat an outline forwards or backwards with holes in between, rings that come back to a vertex already visited (two lobes through the start vertex, spikes, a repeated inner vertex), as shapes and as geo-types polygons; plus shapes READ from records encoded as given: polylines with parts of 1-3 vertices in every arrangement of up to 3 parts, polygons (with and without a hole) whose rings are closed in X / Y while the last vertex differs from the first in Z, M, both or neither; every case is non-trivial",
             bounds: json!({"cases": cases.len(), "max_rings": 9, "max_patches": 3}),
             exhaustive: true,
             assumptions: vec![
